@@ -7,8 +7,8 @@
    well not answer (induction over the tree); (2) on guarded values every comparer of pkg/cmp is its
    ideal leaf (the per-comparer theorems), and ValueAnd / ValueOr combine them as leaf_and / leaf_or. *)
 From Coq Require Import QArith.
-From SC Require Import Base.Prelude Cmp.Cmp Cmp.Logic Cmp.Tolerance Cmp.GoTime Cmp.Spec Cmp.LogicProofs
-  Cmp.ToleranceProofs Cmp.GoTimeProofs Cmp.CmpProofs Cmp.C16Judge.
+From SC Require Import Base.Prelude Cmp.Cmp Cmp.Logic Cmp.Tolerance Cmp.FloatB64 Cmp.GoTime Cmp.Spec Cmp.LogicProofs
+  Cmp.ToleranceProofs Cmp.FloatB64Proofs Cmp.GoTimeProofs Cmp.CmpProofs Cmp.C16Judge.
 Open Scope Z_scope.
 
 Definition ty_differs (a b : cval) : bool :=
@@ -216,11 +216,15 @@ Proof.
   apply andb_true_iff in Ga. destruct Ga as [Va Sa]. apply andb_true_iff in Gb. destruct Gb as [Vb Sb].
   unfold comp_ok. destruct v as [fr mg|d|d|p]; [| | |discriminate Nd]; cbn [model_v ideal_v is_dur negb orb] in *.
   - (* FloatValueApprox *)
-    cbn [vcfg_guard] in Gv. apply andb_true_iff in Gv. destruct Gv as [_ Hm].
+    cbn [vcfg_guard] in Gv. apply andb_true_iff in Gv. destruct Gv as [Gv Hm].
+    apply andb_true_iff in Gv. destruct Gv as [Gv _]. apply andb_true_iff in Gv. destruct Gv as [Sf Sm].
     destruct (ty_differs a b) eqn:D.
     + destruct a as [|tx vx fx ux| |], b as [|ty vy fy uy| |]; try discriminate D.
       split; [reflexivity|]. intros H. discriminate H.
-    + symmetry. apply float_leaf. exact Hm.
+    + assert (Xa : val_small a = true) by (destruct a as [[]| | |]; try reflexivity; exact Va).
+      assert (Xb : val_small b = true) by (destruct b as [[]| | |]; try reflexivity; exact Vb).
+      unfold leaf_of. rewrite (float_approx_b64_exact fr mg a b Sf Sm Xa Xb).
+      symmetry. apply float_leaf. exact Hm.
   - (* TimeValueWithin *)
     cbn [vcfg_guard] in Gv. apply andb_true_iff in Gv. destruct Gv as [D0 D1].
     apply Z.leb_le in D0. apply Z.leb_le in D1.
